@@ -16,7 +16,7 @@ Sums over i < k are prefix-sum functions; the sum the code builds is shown equal
 import z3
 from pyvc import core
 from pyvc.core import Sym, lift, INT, REAL, BOOL, Unsupported
-from pyvc.heap import SymSeq, SymRange, LazyMap, SInt
+from pyvc.heap import SymSeq, SymRange, LazyMap, LazyProduct, SInt, STuple
 from pyvc.rt import Tracked, BUILTINS
 from pyvc.unit import Unit, NoopLogger
 from contracts.sw import Store, induct, Var
@@ -696,5 +696,259 @@ def u_min_error_flow(wt):
     return unit
 
 
+# =====================================================================================================================
+# AbstractPathModelDAG._encode_paths (C01: a layer of the admitted assignment is a unit source-to-sink flow of 0/1 edge indicators;
+#                                     C10: every sub-path constraint is covered to the requested amount by the layer responsible for it)
+
+def u_encode_paths(allow_empty):
+    P = "C01,C10"
+    XP = X
+    R = z3.Function("r_subpath_var", INT, INT, REAL)                       # r[(i, j)]: layer i is responsible for constraint j
+    NODE = z3.Function("node_at", INT, INT)
+    INDEG, OUTDEG = z3.Function("in_degree", INT, INT), z3.Function("out_degree", INT, INT)
+    PRED, SUCC = z3.Function("pred_of", INT, INT, INT), z3.Function("succ_of", INT, INT, INT)
+    CL = z3.Function("constraint_len", INT, INT)
+    CU, CV = z3.Function("constraint_edge_tail", INT, INT, INT), z3.Function("constraint_edge_head", INT, INT, INT)
+    st = {}
+
+    def src_row(i):
+        t = st["OUT"](st["src"], i, OUTDEG(st["src"]))
+        return t <= 1 if allow_empty else t == 1
+
+    def cons_row(v, i):
+        return st["IN"](v, i, INDEG(v)) - st["OUT"](v, i, OUTDEG(v)) == 0
+
+    def inner_node(v):
+        return z3.And(v != st["src"], v != st["snk"])
+
+    def cov_row(i, j):
+        return st["CS"](j, i, CL(j)) >= z3.ToReal(CL(j)) * st["cov"] * R(i, j)
+
+    def resp_row(j):
+        return st["RS"](j, st["k"]) >= 1
+
+    def eqv(ns, entry, body):
+        return lift(ns["self"].solver.store.holds) == z3.And(st[entry], body)
+
+    def snap(name, more=()):
+        def on_entry(ns, it=None):
+            st[name] = lift(ns["self"].solver.store.holds)
+            for a in more:
+                st["cur_" + a] = lift(ns[a])
+        return on_entry
+
+    i_, j_, t_ = z3.Ints("qi qj qt")
+    rng = lambda q, hi: z3.And(q >= 0, q < lift(hi))
+
+    def inv0(ns, seq, done):
+        return {"rows-so-far=one-unit-(at-most-one-if-empty-paths-are-allowed)-leaves-the-source-in-every-layer-seen": eqv(ns, "H_l0", z3.ForAll([i_], z3.Implies(rng(i_, done), src_row(i_))))}
+
+    def inv1(ns, seq, done):
+        return {"rows-so-far=conservation-at-every-inner-node-in-every-layer-seen":
+                eqv(ns, "H_l1", z3.ForAll([i_, j_], z3.Implies(z3.And(rng(i_, done), rng(j_, st["nn"]), inner_node(NODE(j_))), cons_row(NODE(j_), i_))))}
+
+    def inv2(ns, seq, done):
+        i = st["cur_i"]
+        return {"rows-so-far=conservation-at-the-inner-nodes-seen-in-this-layer": eqv(ns, "H_l2", z3.ForAll([j_], z3.Implies(z3.And(rng(j_, done), inner_node(NODE(j_))), cons_row(NODE(j_), i))))}
+
+    def inv3(ns, seq, done):
+        return {"rows-so-far=coverage-row-of-every-constraint-in-every-layer-seen": eqv(ns, "H_l3", z3.ForAll([i_, j_], z3.Implies(z3.And(rng(i_, done), rng(j_, st["m"])), cov_row(i_, j_))))}
+
+    def inv4(ns, seq, done):
+        i = st["cur_i"]
+        return {"rows-so-far=coverage-row-of-the-constraints-seen-in-this-layer": eqv(ns, "H_l4", z3.ForAll([j_], z3.Implies(rng(j_, done), cov_row(i, j_))))}
+
+    def inv5(ns, seq, done):
+        return {"rows-so-far=some-layer-is-responsible-for-every-constraint-seen": eqv(ns, "H_l5", z3.ForAll([j_], z3.Implies(rng(j_, done), resp_row(j_))))}
+
+    def h(c, f):
+        g = Graph(c)
+        k, nn, m = c.fresh_const("k", INT), c.fresh_const("n_nodes", INT), c.fresh_const("n_constraints", INT)
+        cov = c.fresh_const("coverage", REAL)
+        c.assume(z3.And(k >= 1, nn >= 0, m >= 0, cov > 0, cov <= 1))
+        src, snk = g.source.t, g.sink.t
+        st.update(g=g, k=k, nn=nn, m=m, cov=cov, src=src, snk=snk)
+        v, q, jj = z3.Ints("hv hq hj")
+        c.assume(z3.ForAll([v], z3.And(INDEG(v) >= 0, OUTDEG(v) >= 0)))
+        c.assume(z3.ForAll([v, q], z3.Implies(z3.And(q >= 0, q < INDEG(v)), g.EDGE(PRED(v, q), v))))          # A2: predecessors / successors enumerate edges
+        c.assume(z3.ForAll([v, q], z3.Implies(z3.And(q >= 0, q < OUTDEG(v)), g.EDGE(v, SUCC(v, q)))))
+        c.assume(z3.ForAll([jj], z3.Implies(z3.And(jj >= 0, jj < m), CL(jj) >= 1)))
+        c.assume(z3.ForAll([jj, q], z3.Implies(z3.And(jj >= 0, jj < m, q >= 0, q < CL(jj)), g.EDGE(CU(jj, q), CV(jj, q)))))   # requires: constraint edges are edges (validated by the constructor, C19)
+        st["OUT"] = prefix_sum(c, "outflow", lambda a, i, q: XP(a, SUCC(a, q), i), 2)
+        st["IN"] = prefix_sum(c, "inflow", lambda a, i, q: XP(PRED(a, q), a, i), 2)
+        st["CS"] = prefix_sum(c, "constraint_edges_used", lambda j, i, q: XP(CU(j, q), CV(j, q), i), 2)
+        st["RS"] = prefix_sum(c, "responsible_layers", lambda j, q: R(q, j), 1)
+        edge_pred = lambda a, b, i: z3.And(g.EDGE(a, b), i >= 0, i < k)
+        sub_pred = lambda i, j: z3.And(i >= 0, i < k, j >= 0, j < m)
+
+        class GG:
+            source, sink = g.source, g.sink
+            def edges(self, data=False): return g.edges(data)
+            @property
+            def nodes(self): return SymSeq(nn, lambda q: Sym(NODE(lift(q))), SInt, "nodes")
+            def successors(self, a): return SymSeq(OUTDEG(lift(a)), lambda q: Sym(SUCC(lift(a), lift(q))), SInt, "successors")
+            def predecessors(self, a): return SymSeq(INDEG(lift(a)), lambda q: Sym(PRED(lift(a), lift(q))), SInt, "predecessors")
+            def number_of_nodes(self): return Sym(nn)
+
+        class Me(Tracked):
+            pass
+        me = Me()
+        sol = Solver({"edge": (XP, 3), "r": (R, 2)})
+        sol.graph, sol.basic_pred = g, (lambda a, b: g.EDGE(a, b))
+
+        def recognise(indexes, name_prefix):
+            """the index lists built by comprehensions: checked at Skolem positions, then replaced by their index set"""
+            if isinstance(indexes, LazyProduct):
+                a0, b0 = c.fresh_const("arbitrary_layer", INT), c.fresh_const("arbitrary_position", INT)
+                it1 = indexes.it1
+                if not (isinstance(it1, SymRange) and c._valid(lift(it1.length()) == k)):
+                    raise Unsupported("product index list: outer iterable is not range(k)")
+                c.assume(z3.And(a0 >= 0, a0 < k))
+                x1 = it1.at(a0)
+                it2 = indexes.it2fn(x1)
+                n2 = lift(it2.length())
+                c.assume(z3.And(b0 >= 0, b0 < n2))
+                key = indexes.fn(x1)(it2.at(b0))
+                if name_prefix == "edge" and len(key) == 3 and c._valid(z3.And(n2 == g.n, lift(key[0]) == g.EU(b0), lift(key[1]) == g.EV(b0), lift(key[2]) == a0)):
+                    return IdxSet("edge_indexes", edge_pred, 3)
+                if name_prefix == "r" and len(key) == 2 and c._valid(z3.And(n2 == m, lift(key[0]) == a0, lift(key[1]) == b0)):
+                    return IdxSet("subpath_indexes", sub_pred, 2)
+                raise Unsupported("product index list not recognised")
+            return indexes
+        orig_add = sol.add_variables
+
+        def add_variables(indexes, name_prefix="", lb=0, ub=1, var_type="integer"):
+            return orig_add(recognise(indexes, name_prefix), name_prefix=name_prefix, lb=lb, ub=ub, var_type=var_type)
+        sol.add_variables = add_variables
+
+        def linked_sum(it):
+            r = Solver.quicksum(sol, it)
+            bs = c.sums[-1]
+            tj = z3.Int(c.name("tj"))
+            t = bs.t(tj)
+            cands = []
+            if z3.is_app(t) and t.decl().eq(XP):
+                a, b, i = t.arg(0), t.arg(1), t.arg(2)
+                cands.append((c._valid(z3.And(b == SUCC(a, tj), bs.n == OUTDEG(a))) if True else False, st["OUT"], (a, i), lambda q: XP(a, SUCC(a, q), i), OUTDEG(a), "flow-out-of-the-node-in-the-layer"))
+                cands.append((None, st["IN"], (b, i), lambda q: XP(PRED(b, q), b, i), INDEG(b), "flow-into-the-node-in-the-layer"))
+                if z3.is_app(a) and a.decl().eq(CU):
+                    jt = a.arg(0)
+                    cands.append((None, st["CS"], (jt, i), lambda q: XP(CU(jt, q), CV(jt, q), i), CL(jt), "constraint-edges-used-by-the-layer"))
+            elif z3.is_app(t) and t.decl().eq(R):
+                jt = t.arg(1)
+                cands.append((None, st["RS"], (jt,), lambda q: R(q, jt), k, "layers-responsible-for-the-constraint"))
+            for ok, S, args, term, n, label in cands:
+                if ok is None:
+                    ok = c._valid(z3.And(bs.n == n, t == term(tj)))
+                if ok:
+                    link_sum(c, "sum-built-by-the-code=" + label, lambda q: S(*args, q), lambda q: z3.Implies(q >= 0, S(*args, q + 1) == S(*args, q) + term(q)), n, prop=P)
+                    return r
+            raise Unsupported("sum over something else than successors / predecessors / constraint edges / layers: %s" % t)
+        sol.quicksum = linked_sum
+        me.solver, me.G, me.k = sol, GG(), Sym(k)
+        me.allow_empty_paths = allow_empty
+        me.subpath_constraints = SymSeq(m, lambda jx: SymSeq(CL(lift(jx)), lambda q: (Sym(CU(lift(jx), lift(q))), Sym(CV(lift(jx), lift(q)))), STuple(SInt, SInt), "constraint"), None, "subpath_constraints")
+        me.subpath_constraints_coverage, me.subpath_constraints_coverage_length = Sym(cov), None
+        me.encode_edge_position, me.length_attr = False, None
+        H0 = lift(sol.store.holds)
+        f(me)
+        H = lift(sol.store.holds)
+        a, b = z3.Ints("pa pb")
+        bx = z3.ForAll([a, b, i_], z3.Implies(edge_pred(a, b, i_), z3.And(0 <= XP(a, b, i_), XP(a, b, i_) <= 1, z3.IsInt(XP(a, b, i_)))))
+        routes = z3.And(z3.ForAll([i_], z3.Implies(rng(i_, k), src_row(i_))),
+                        z3.ForAll([i_, j_], z3.Implies(z3.And(rng(i_, k), rng(j_, nn), inner_node(NODE(j_))), cons_row(NODE(j_), i_))))
+        has_c = c.decide(m > 0, "constraints-present")
+        if has_c:
+            br = z3.ForAll([i_, j_], z3.Implies(sub_pred(i_, j_), z3.And(0 <= R(i_, j_), R(i_, j_) <= 1, z3.IsInt(R(i_, j_)))))
+            cons = z3.And(br, z3.ForAll([i_, j_], z3.Implies(sub_pred(i_, j_), cov_row(i_, j_))), z3.ForAll([j_], z3.Implies(rng(j_, m), resp_row(j_))))
+        else:
+            cons = z3.BoolVal(True)
+        full = z3.And(H0, bx, routes, cons)
+        c.prove("post:columns:one-0/1-integer-edge-indicator-per-(edge,layer)%s" % ("-and-one-0/1-responsibility-indicator-per-(layer,constraint)" if has_c else ""),
+                z3.BoolVal(set(sol.created) == ({"edge", "r"} if has_c else {"edge"}) and all(r["var_type"] == "integer" for r in sol.created.values())), prop=P)
+        c.prove("post:SOUND-in-every-admitted-assignment-each-layer-sends-%s-unit-out-of-the-source-and-conserves-it-at-every-inner-node%s"
+                % ("at-most-one" if allow_empty else "exactly-one", ";-every-constraint-has-a-responsible-layer-that-uses-at-least-length*coverage-of-its-edges" if has_c else ""),
+                z3.Implies(H, full), prop=P)
+        c.prove("post:COMPLETE-nothing-else-is-excluded", z3.Implies(full, H), prop=P)
+
+    def concrete(inst):
+        def hc(c, f):
+            E, k, cons, covv = [tuple(e) for e in inst["edges"]], inst["k"], [[tuple(e) for e in cc] for cc in inst.get("cons", [])], inst.get("cov", 1.0)
+            nodes = []
+            for e in E:
+                for a in e:
+                    if a not in nodes:
+                        nodes.append(a)
+            s0, t0 = inst["source"], inst["sink"]
+
+            node_list = list(nodes)
+
+            class GG:
+                source, sink = s0, t0
+                def edges(self, data=False): return list(E)
+                @property
+                def nodes(self): return list(node_list)
+                def successors(self, a): return [b for (x, b) in E if x == a]
+                def predecessors(self, a): return [x for (x, b) in E if b == a]
+                def number_of_nodes(self): return len(node_list)
+
+            class Me(Tracked):
+                pass
+            me = Me()
+            sol = Solver({"edge": (XP, 3), "r": (R, 2)})
+            me.solver, me.G, me.k = sol, GG(), k
+            me.allow_empty_paths = allow_empty
+            me.subpath_constraints = cons
+            me.subpath_constraints_coverage, me.subpath_constraints_coverage_length = covv, None
+            me.encode_edge_position, me.length_attr = False, None
+            H0 = lift(sol.store.holds)
+            f(me)
+            H = lift(sol.store.holds)
+            rows = [z3.And(0 <= XP(a, b, i), XP(a, b, i) <= 1, z3.IsInt(XP(a, b, i))) for i in range(k) for (a, b) in E]
+            S = lambda ts: sum(ts, z3.RealVal(0))
+            for i in range(k):
+                out_s = S([XP(s0, b, i) for (x, b) in E if x == s0])
+                rows.append(out_s <= 1 if allow_empty else out_s == 1)
+                for v in nodes:
+                    if v in (s0, t0):
+                        continue
+                    rows.append(S([XP(x, v, i) for (x, b) in E if b == v]) - S([XP(v, b, i) for (x, b) in E if x == v]) == 0)
+            if cons:
+                rows += [z3.And(0 <= R(i, j), R(i, j) <= 1, z3.IsInt(R(i, j))) for i in range(k) for j in range(len(cons))]
+                for i in range(k):
+                    for j, cc in enumerate(cons):
+                        rows.append(S([XP(a, b, i) for (a, b) in cc]) >= z3.RealVal(len(cc)) * z3.RealVal(repr(covv)) * R(i, j))
+                for j in range(len(cons)):
+                    rows.append(S([R(i, j) for i in range(k)]) >= 1)
+            full = z3.And(H0, *rows)
+            c.prove("instance:SOUND-each-layer-is-a-unit-source-to-sink-flow-of-0/1-indicators-and-every-constraint-is-covered-by-a-responsible-layer", z3.Implies(H, full), prop=P)
+            c.prove("instance:COMPLETE-nothing-else-is-excluded", z3.Implies(full, H), prop=P)
+        return hc
+
+    def instances():
+        D = [(0, 1), (0, 2), (1, 3), (2, 3), (1, 2)]
+        return [(lab, concrete(inst)) for lab, inst in (
+            ("diamond-with-chord,k=2", dict(edges=D, k=2, source=0, sink=3)),
+            ("diamond-with-chord,k=2,one-constraint", dict(edges=D, k=2, source=0, sink=3, cons=[[(0, 1), (1, 2)]])),
+            ("diamond-with-chord,k=1,two-constraints,coverage-0.5", dict(edges=D, k=1, source=0, sink=3, cons=[[(0, 1), (1, 3)], [(2, 3)]], cov=0.5)),
+            ("path,k=3", dict(edges=[(0, 1), (1, 2)], k=3, source=0, sink=2)))]
+
+    fresh = lambda old: Sym(z3.Bool(core.ctx().name("H")))
+    mod = [(("self", "solver", "store", "holds"), fresh)]
+    loops = {0: dict(inv=inv0, prop=P, modifies=mod, on_entry=snap("H_l0"), keep=("i",)),
+             1: dict(inv=inv1, prop=P, modifies=mod, on_entry=snap("H_l1"), keep=("i", "v")),
+             2: dict(inv=inv2, prop=P, modifies=mod, on_entry=snap("H_l2", ("i",)), keep=("v",)),
+             3: dict(inv=inv3, prop=P, modifies=mod, on_entry=snap("H_l3"), keep=("i", "j", "constraint_length", "coverage_fraction")),
+             4: dict(inv=inv4, prop=P, modifies=mod, on_entry=snap("H_l4", ("i",)), keep=("j", "constraint_length", "coverage_fraction")),
+             5: dict(inv=inv5, prop=P, modifies=mod, on_entry=snap("H_l5"), keep=("j",))}
+    return Unit("flowpaths/abstractpathmodeldag.py", "AbstractPathModelDAG._encode_paths", h, globs=dict(utils=UtilsStub), loops=loops, props=["C01", "C10"],
+                name="flowpaths/abstractpathmodeldag.py:AbstractPathModelDAG._encode_paths[allow_empty_paths=%s]" % allow_empty, callee_contracts=[A1C], instances=instances,
+                assumptions=[A3, "A2 networkx: successors(v) / predecessors(v) enumerate the out- / in-neighbours of v",
+                             "requires: constraint edges are edges of the graph (validated by the constructor, C19); coverage counted in edges (subpath_constraints_coverage_length is None); "
+                             "no position / length columns requested (encode_edge_position False)",
+                             "LM (not proved here): on a DAG a 0/1 edge vector with one unit leaving the source and conservation at the inner nodes is the indicator of one source-to-sink path "
+                             "(the decoder unit of C01 starts from exactly this hypothesis; the bounded part checks the returned routes)"])
+
+
 def all_units():
-    return dag_units() + cyc_units() + [u_min_error_flow(int), u_min_error_flow(float)]
+    return dag_units() + cyc_units() + [u_min_error_flow(int), u_min_error_flow(float)] + [u_encode_paths(False), u_encode_paths(True)]
